@@ -1,4 +1,183 @@
-import PpciVerif.Model.Regex
+import PpciVerif.Proofs.RegexInst
+import PpciVerif.Proofs.RegexParse
+import PpciVerif.Proofs.RegexMeaning
+import PpciVerif.Model.RegexLegacy
+/-!
+# C31 — regular-expression automata accept exactly the expression's language
+
+Model: `Model.Regex` (regex.py / compiler.py / scanner.py), `Model.RegexParse` (parser.py), after the
+`fix:` commits of findings/C31.json; `Model.RegexLegacy` = the code before them (witnesses only).
+Specification: `Spec.Lang` (`Matches`, `Syn`, `Syn.rx`, `Munch`), `Spec.RegexLang` (`denote`, `L`, `WF`).
+
+All theorems quantify over ALL expressions / syntax trees and ALL strings; strings given to the
+automaton are over ppci's alphabet `SIGMA` = code points 0..255 (`InSigma`).  `WF r` is the
+representation invariant "every SymbolSet holds a canonical IntegerSet" which the `IntegerSet`
+constructor establishes (C33); it is not a restriction on the inputs.
+
+NOT proved: termination of `compile` (`compile_total_full`) — it is false without
+ACI-normalisation of `|` (open finding, witness below), so the automaton theorems carry the explicit
+guard "compile returned" and the suffix `_partial`.
+-/
 namespace Props.C31
-theorem placeholder_to_be_replaced : True := trivial
+open Spec.Lang Spec.RegexLang Model.Regex Model.RegexParse Proofs.Regex Spec.IntSet
+
+/-! ## the executable specification decides the inductive one (used for spec validation vs `re.fullmatch`) -/
+
+theorem spec_matchB_iff (r : Rx Int) (s : List Int) : matchB r s = true ↔ Matches r s := matchB_iff r s
+
+/-! ## smart constructors, nullable, derivative -/
+
+theorem concatenate_language (l r : Re) (s : List Int) :
+    L (concatenate l r) s ↔ ∃ u v, s = u ++ v ∧ L l u ∧ L r v := L_concatenate l r s
+
+/-- includes the `SymbolSet | SymbolSet → SymbolSet(union)` shortcut -/
+theorem logical_or_language (l r : Re) (s : List Int) : L (logicalOr l r) s ↔ L l s ∨ L r s := L_logicalOr l r s
+
+theorem logical_and_language (l r : Re) (s : List Int) : L (logicalAnd l r) s ↔ L l s ∧ L r s := L_logicalAnd l r s
+
+theorem nullable_iff_empty_string (r : Re) : nullable r = true ↔ L r [] := nullable_iff r
+
+theorem derivative_language (r : Re) (hr : WF r) (c : Int) (s : List Int) :
+    L (derivative r c) s ↔ L r (c :: s) := derivative_correct r c s hr
+
+theorem derivative_keeps_invariant (r : Re) (hr : WF r) (c : Int) : WF (derivative r c) := WF_derivative r c hr
+
+/-- derivative classes: canonical sets, pairwise disjoint, covering the alphabet, and two symbols
+of one class have the same derivative (syntactically equal expressions) -/
+theorem derivative_classes_partition (r : Re) (hr : WF r) :
+    (∀ K ∈ derivativeClasses r, Canon K) ∧
+    (derivativeClasses r).Pairwise (fun a b => ∀ v, ¬ (Mem a v ∧ Mem b v)) ∧
+    (∀ c, 0 ≤ c → c ≤ 255 → ∃ K ∈ derivativeClasses r, Mem K c) ∧
+    (∀ K ∈ derivativeClasses r, ∀ c1 c2, Mem K c1 → Mem K c2 → derivative r c1 = derivative r c2) :=
+  let h := classesOK_re r hr
+  ⟨h.canon, h.disj, h.cover, h.coh⟩
+
+/-! ## compile: the automaton accepts exactly `L r`, whenever `compile` returns -/
+
+/-- full statement (NOT proved; false today: `a*a*`, see the witness below): compile always returns -/
+def compile_total_full : Prop := ∀ r : Re, WF r → ∃ fuel d, compile fuel r = .ok d
+
+/-- acceptance computed by running the tables (bisect-based `pick_transition`, no RuntimeError,
+no IndexError) is membership in the language — under the guard that `compile` returned -/
+theorem compile_accepts_partial (r : Re) (hr : WF r) (fuel : Nat) (d : DFA Bool)
+    (hc : compile fuel r = .ok d) (s : List Int) (hs : InSigma s) :
+    ∃ b, accepts d s = .ok b ∧ (b = true ↔ L r s) :=
+  ⟨_, compile_accepts r hr fuel d hc s hs, nullable_derivs r s hr⟩
+
+/-- `error = state_numbers[expr.null]` never raises KeyError (after the fix) -/
+theorem compile_no_keyError (r : Re) (hr : WF r) (fuel : Nat) : compile fuel r ≠ .error .KeyError :=
+  compileWith_no_keyError sound_re nullable hr WF_NULL fuel
+
+/-! ## scan: maximal munch -/
+
+/-- `scan` splits the input into longest non-empty prefixes in `L r`, repeatedly; it ends with
+`done` iff the whole input was consumed and with ValueError iff it got stuck; it never raises
+anything else and never emits an empty token — under the guard that `compile` returned -/
+theorem scan_maximal_munch_partial (r : Re) (hr : WF r) (fuel : Nat) (d : DFA Bool)
+    (hc : compile fuel r = .ok d) (s : List Int) (hs : InSigma s) :
+    ∃ ok, (scan d s).2 = (if ok then End.done else End.noMatch) ∧ Munch (L r) s (scan d s).1 ok :=
+  compile_scan r hr fuel d hc s hs
+
+/-- `Scanner.scan` for an `ExpressionVector`: maximal munch w.r.t. the union of the token languages,
+each token named after the FIRST entry of the vector that matches it -/
+theorem scanner_vector_maximal_munch_partial (v : Vec) (hv : VecWF v) (fuel : Nat) (d : DFA (List Nat))
+    (hc : compileVec fuel v = .ok d) (s : List Int) (hs : InSigma s) :
+    ∃ ok, (scanVec d s).2 = (if ok then End.done else End.noMatch) ∧
+      Munch (fun t => ∃ p ∈ v, L p.2 t) s ((scanVec d s).1.map (·.2)) ok ∧
+      ∀ tok ∈ (scanVec d s).1, FirstMatch v tok.2 tok.1 :=
+  compileVec_scan v hv fuel d hc s hs
+
+/-! ## parser -/
+
+/-- `parse (pretty t) = meaning t`: `pretty` inserts only the parentheses the standard precedence
+postfix > concatenation > alternation (left-associative) requires, `meaning` is the object the
+standard reading denotes -/
+theorem parse_pretty (t : Syn) (ht : t.WF) : parse (pretty t) = .ok (meaning t) :=
+  Proofs.RegexParse.parse_pretty t ht
+
+/-- the object the parser returns denotes the standard language of the expression -/
+theorem parse_language (t : Syn) (ht : t.WF) :
+    ∃ r, parse (pretty t) = .ok r ∧ WF r ∧ ∀ s, L r s ↔ Matches t.rx s :=
+  ⟨meaning t, parse_pretty t ht, WF_meaning t, L_meaning t⟩
+
+/-- end to end: text → parser → compile → tables accept exactly the standard language -/
+theorem regex_automaton_partial (t : Syn) (ht : t.WF) (fuel : Nat) (r : Re) (d : DFA Bool)
+    (hp : parse (pretty t) = .ok r) (hc : compile fuel r = .ok d) (s : List Int) (hs : InSigma s) :
+    ∃ b, accepts d s = .ok b ∧ (b = true ↔ Matches t.rx s) := by
+  rw [parse_pretty t ht] at hp
+  cases hp
+  obtain ⟨b, h1, h2⟩ := compile_accepts_partial (meaning t) (WF_meaning t) fuel d hc s hs
+  exact ⟨b, h1, h2.trans (L_meaning t s)⟩
+
+/-! ## non-vacuity -/
+
+def a : Re := symbol 97
+def b : Re := symbol 98
+/-- `ab|cd` -/
+def abcd : Syn := .alt (.cat (.chr 97) (.chr 98)) (.cat (.chr 99) (.chr 100))
+
+example : pretty abcd = [97, 98, 124, 99, 100] := by decide +kernel
+example : parse [97, 98, 124, 99, 100] =
+    .ok (.or (.cat (.set [(97, 97)]) (.set [(98, 98)])) (.cat (.set [(99, 99)]) (.set [(100, 100)]))) := by
+  decide +kernel
+example : abcd.WF := by simp [abcd, Syn.WF]
+-- `(a|b)*c` needs its parentheses, `a|b*` does not get any
+example : pretty (.cat (.star (.alt (.chr 97) (.chr 98))) (.chr 99)) = [40, 97, 124, 98, 41, 42, 99] := by decide +kernel
+example : pretty (.alt (.chr 97) (.star (.chr 98))) = [97, 124, 98, 42] := by decide +kernel
+example : derivative (.cat a b) 97 = b ∧ nullable (.star a) = true ∧ nullable (.cat a b) = false := by decide +kernel
+example : derivativeClasses (.cat a b) = [[(97, 97)], [(0, 96), (98, 255)]] := by decide +kernel
+/-- `compile('ab')` returns: 4 states (ab, b, NULL, ε) -/
+example : compile 10 (.cat a b) = .ok
+    { trans := [[(0, 96, 2), (97, 97, 1), (98, 255, 2)], [(0, 97, 2), (98, 98, 3), (99, 255, 2)], [(0, 255, 2)], [(0, 255, 2)]],
+      accepts := [false, false, false, true], error := 2 } := by decide +kernel
+example : WF (.cat a b) := by
+  refine ⟨?_, ?_⟩ <;> exact (Proofs.IntSet.mk_spec _).1
+/-- `.*` compiles after the fix (the error state gets number 1 although it is unreachable) -/
+example : compile 10 (.star SIGMA) = .ok { trans := [[(0, 255, 0)], [(0, 255, 1)]], accepts := [true, false], error := 1 } := by
+  decide +kernel
+/-- scanning `aab` with `a*`: one token, then stuck at `b` (ValueError) — no empty tokens -/
+example : (compile 10 (.star a)).toOption.map (fun d => scan d [97, 97, 98]) = some ([[97, 97]], End.noMatch) := by
+  decide +kernel
+example : (compile 10 (.cat a (.star b))).toOption.map (fun d => scan d [97, 98, 97]) = some ([[97, 98], [97]], End.done) := by
+  decide +kernel
+/-- first-name priority: `ab` is both a `kw` (0) and an `id` (1) -/
+example : (compileVec 20 [(0, .cat a b), (1, concatenate (symbolSet [(97, 98)]) (.star (symbolSet [(97, 98)])))]).toOption.map
+    (fun d => scanVec d [97, 98, 97]) = some ([(1, [97, 98, 97])], End.done) := by decide +kernel
+example : (compileVec 20 [(0, .cat a b), (1, concatenate (symbolSet [(97, 98)]) (.star (symbolSet [(97, 98)])))]).toOption.map
+    (fun d => scanVec d [97, 98]) = some ([(0, [97, 98])], End.done) := by decide +kernel
+
+/-! ## negation witnesses
+
+### open finding: `compile` does not terminate without ACI-normalisation (`a*a*`)
+Each derivative by `a` wraps the previous state into one more `LogicalOr(…, a*)`, all states are
+different, the work list never empties.  (Bounded witness; `(aa+)*` even doubles in size each step.) -/
+example : compile 30 (.cat (.star a) (.star a)) = .error .Fuel := by decide +kernel
+example : derivative (.cat (.star a) (.star a)) 97 = .or (.cat (.star a) (.star a)) (.star a) := by decide +kernel
+example : derivative (.or (.cat (.star a) (.star a)) (.star a)) 97
+    = .or (.or (.cat (.star a) (.star a)) (.star a)) (.star a) := by decide +kernel
+
+/-! ### fixed: operator precedence (the parser before the fix, `Model.RegexLegacy`) -/
+/-- before: `ab|cd` was read as `a(b|c)d` = `a[b-c]d` … -/
+example : Model.RegexLegacy.parse [97, 98, 124, 99, 100] =
+    .ok (.cat (.cat (.set [(97, 97)]) (.set [(98, 99)])) (.set [(100, 100)])) := by decide +kernel
+/-- … whose language is not the standard one: it rejects `ab` … -/
+example : ¬ L (.cat (.cat (.set [(97, 97)]) (.set [(98, 99)])) (.set [(100, 100)])) [97, 98] := by
+  intro h
+  have := (matchB_iff _ _).2 h
+  revert this
+  decide +kernel
+example : Matches abcd.rx [97, 98] := (matchB_iff _ _).1 (by decide +kernel)
+/-- … and a group could not hold a concatenation at all: `(ab)*` was a ValueError -/
+example : Model.RegexLegacy.parse [40, 97, 98, 41, 42] = .error .ValueError := by decide +kernel
+example : parse [40, 97, 98, 41, 42] = .ok (.star (.cat (.set [(97, 97)]) (.set [(98, 98)]))) := by decide +kernel
+
+/-! ### fixed: `compile('.*')` raised KeyError (no state for `expr.null`) -/
+example : Model.RegexLegacy.compile 10 (.star SIGMA) = .error .KeyError := by decide +kernel
+
+/-! ### fixed: `scan` emitted the empty token for ever when the longest match was empty -/
+example : (Model.RegexLegacy.compile 10 (.star a)).toOption.map (fun d => Model.RegexLegacy.scan d [98])
+    = some ([], Model.RegexLegacy.End.endlessEmpty) := by decide +kernel
+example : (Model.RegexLegacy.compile 10 (.star a)).toOption.map (fun d => Model.RegexLegacy.scan d [97, 97])
+    = some ([[97, 97]], Model.RegexLegacy.End.endlessEmpty) := by decide +kernel
+
 end Props.C31
